@@ -24,6 +24,26 @@ CLAIMS = {
     ),
 }
 
+CLAIMS["C10"] = dict(
+    text=("Every history of up to 4 (quick) / 5 (thorough) events per contact - answer, hearsay mention, query received, query sent, "
+          "wait of any length in [0, 40 min] at nanosecond resolution, from a symbolic clock start - is decided against a reference "
+          "log stating what the property allows (good only with an answer/query within 15 min, hearsay-only stays questionable, "
+          "two unanswered queries while not good drop the contact, an answer makes it good at once); plus the 15-minute boundary "
+          "at 1 ns resolution. Bounded by the event count; node level only."),
+    note=("Virtual clock replaces crate::time under cfg(kani); the gate 'events reach only reported contacts' (find_node_mut) is "
+          "mirrored in the harness; handler wiring is outside."),
+)
+CLAIMS["C08"] = dict(
+    text=("One Bucket::add_node from an arbitrary bucket state (every slot: never answered / answered and queried at symbolic ages, "
+          "0..3 unanswered queries) with an arbitrary offer (good / questionable / bad; fresh identity or one already stored) is "
+          "decided against the property's clauses: at most one node lost, only a strictly worse one, none while a free or bad slot "
+          "exists, repeat offers update in place, full bucket of equal-or-better nodes rejects and is unchanged, room or a worse "
+          "node => admitted, no duplicate. Being an inductive step from any state satisfying the stated invariant it covers "
+          "histories of any length at bucket level. Quick: 4 symbolic slots at a time; thorough: all 8 at once."),
+    note=("Slot identities are concrete and distinct (symbolic standing); occupancy concrete per harness (DESIGN.md F21); virtual "
+          "clock; the table-level placement/split is decided by the table harnesses listed in evidence."),
+)
+
 NOT_APPLICABLE = {
     "C01": "needs >=2 complete nodes (tokio runtime, spawned bootstrap task, UDP, 24 h of timers); a tokio runtime cannot be compiled by Kani (compiler panic on catch_unwind intrinsic) and DhtHandler does not terminate in CBMC (DESIGN.md F6/F7)",
     "C11": "hours of handler + refresh + timer + bootstrap under a runtime (F6/F7); no sequential kernel carries the claim",
